@@ -292,6 +292,18 @@ func cmdStoreExec(args []string) error {
 				} else {
 					ans = fmt.Sprint(b)
 				}
+			case "Q":
+				text := ""
+				for _, w := range f[1:] {
+					if strings.HasPrefix(w, "text=") {
+						text, _ = unhx(strings.TrimPrefix(w, "text="))
+					}
+				}
+				res, _ := runStatement(store, text, 1, 1)
+				ans = res.cls
+				if res.cls == "ok" {
+					ans = res.text
+				}
 			case "look":
 				n, _ := unhx(f[1])
 				var s *node.Node
